@@ -630,6 +630,9 @@ func (obj *SparseReal32Vector) Import(filename string) error {
       values = append(values, float32(v))
     }
   }
+  if err := checkSparseIndices(indices, n); err != nil {
+    return err
+  }
   *obj = *NewSparseReal32Vector(indices, values, n)
   return nil
 }
@@ -661,6 +664,9 @@ func (obj *SparseReal32Vector) UnmarshalJSON(data []byte) error {
   }
   if len(r.Index) != len(r.Value) {
     return fmt.Errorf("invalid sparse vector")
+  }
+  if err := checkSparseIndices(r.Index, r.Length); err != nil {
+    return err
   }
   *obj = *NewSparseReal32Vector(r.Index, r.Value, r.Length)
   return nil
